@@ -3,8 +3,8 @@ open Primaite Primaite.Agents
 
 /-! Line protocol of the C19 driver (one op per line, one answer per line):
 
-    p-init  <periodic|dm> start startVar freq var maxExec nNodes d0        → ok <next> | raised
-    p-step  t d k                                                          → nothing|exec <k>|raised  <next> <num>
+    p-init  <periodic|dm> start startVar freq var maxExec nodes(a,b|-) app d0 → ok <next> | raised
+    p-step  t d k                                                          → nothing|exec <name> key=value …|raised  <next> <num>
     prob    <ins|key> nActions uNum uDen k:w,k:w,…                          → chose <i> | raised
     probn   <ins|key> nActions den uNum uDen k:w,…  (w ∈ ℤ, p = w/den)       → chose <i> | raised | rejected
     t1-init start freq var rkc rst pPn pPd pCn pCd pYn pYd attempts repeatScan exfil corrupt cont d0 k1 k2
@@ -86,8 +86,12 @@ def showAct3 (a : Tap3.Act) : String :=
 def showSt3 (s : Tap3.St) : String :=
   s!"{showStage3 s.cur} {showStage3 s.nxt} {showProg s.prog} {showBool s.concluded} {s.nextExec}"
 
-def showPOut : PeriodicOut → String
-  | .doNothing => "nothing" | .execute k => s!"exec {k}" | .raised => "raised"
+def showPOut (c : PeriodicCfg) (o : PeriodicOut) : String :=
+  match o, o.render c with
+  | .doNothing, _ => "nothing"
+  | .execute _, some (name, ps) => s!"exec {name} " ++ " ".intercalate (ps.map fun kv => s!"{kv.1}={kv.2}")
+  | .execute k, none => s!"exec ?{k}"
+  | .raised, _ => "raised"
 
 def csvStr (s : String) : List String := if s = "-" then [] else s.splitOn ","
 
@@ -124,11 +128,11 @@ def mkCfg3 (start f v rkc rst ppn ppd pan pad pmn pmd pen ped : Int) (sn : List 
     startingNodes := sn, defaultStartingNode := dsn, accountChanges := accts, acls := acls, creds0 := creds }
 
 def step (st : DState) : List String → DState × String
-  | ["p-init", kind, a1, a2, a3, a4, a5, a6, a7] =>
-    match ints [a1, a2, a3, a4, a5, a6, a7] with
-    | some [start, sv, f, v, mx, n, d0] =>
+  | ["p-init", kind, a1, a2, a3, a4, a5, nodes, app, a7] =>
+    match ints [a1, a2, a3, a4, a5, a7] with
+    | some [start, sv, f, v, mx, d0] =>
       let cfg : PeriodicCfg := { startStep := start, startVariance := sv, frequency := f, variance := v,
-                                 maxExecutions := mx, nStartNodes := n.toNat }
+                                 maxExecutions := mx, nodes := csvStr nodes, app := app }
       let isDm := kind = "dm"
       match (if isDm then dmInit cfg else periodicInit cfg d0) with
       | some s => ({ st with pcfg := some (isDm, cfg), pst := some s }, s!"ok {s.next}")
@@ -138,7 +142,7 @@ def step (st : DState) : List String → DState × String
     match st.pcfg, st.pst, ints [t, d, k] with
     | some (isDm, cfg), some s, some [t, d, k] =>
       let (s', o) := if isDm then dmStep cfg s t d k.toNat else periodicStep cfg s t d k.toNat
-      ({ st with pst := some s' }, s!"{showPOut o} {s'.next} {s'.numExec}")
+      ({ st with pst := some s' }, s!"{showPOut cfg o} {s'.next} {s'.numExec}")
     | _, _, _ => (st, "bad-op")
   | ["prob", ord, n, un, ud, tb] =>
     match n.toNat?, un.toNat?, ud.toNat?, csvPairs tb with
